@@ -1216,6 +1216,8 @@ def instances(tier: str) -> List[Tuple[str, tuple, dict, Callable[..., Callable[
     # star battle
     I += [("star_battle", (4, [[0, 0, 1, 1], [0, 0, 1, 1], [2, 2, 3, 3], [2, 2, 3, 3]], 1), {}, rule_star_battle),
           ("star_battle", (4, [[0, 1, 1, 1], [0, 1, 2, 2], [0, 3, 3, 2], [0, 3, 3, 2]], 1), {}, rule_star_battle)]
+    # a room that holds two stars of an otherwise admissible placement (rows, columns and the no-touch rule do not imply the room rule)
+    I += [("star_battle", (4, [[0, 0, 0, 0], [1, 1, 1, 0], [1, 2, 2, 2], [3, 3, 3, 2]], 1), {}, rule_star_battle)]
     # slitherlink
     I += [("slitherlink", (2, 2, [[-1, -1], [-1, -1]]), {}, rule_slitherlink),
           ("slitherlink", (2, 2, [[3, -1], [-1, 0]]), {}, rule_slitherlink),
@@ -1235,6 +1237,10 @@ def instances(tier: str) -> List[Tuple[str, tuple, dict, Callable[..., Callable[
     I += [("gokigen", (2, 2, [[-1, -1, -1], [-1, -1, -1], [-1, -1, -1]]), {}, rule_gokigen),
           ("gokigen", (2, 3, [[0, -1, -1, 1], [-1, 2, -1, -1], [-1, -1, -1, 0]]), {}, rule_gokigen),
           ("gokigen", (3, 2, [[-1, 1, -1], [-1, -1, 2], [1, -1, -1], [-1, -1, -1]]), {}, rule_gokigen)]
+    # no clues on non-square boards (every diamond is a cycle), a lone clue in the middle of the board
+    I += [("gokigen", (2, 3, [[-1] * 4] * 3), {}, rule_gokigen), ("gokigen", (3, 2, [[-1] * 3] * 4), {}, rule_gokigen),
+          ("gokigen", (2, 2, [[-1, -1, -1], [-1, 1, -1], [-1, -1, -1]]), {}, rule_gokigen),
+          ("gokigen", (2, 2, [[-1, -1, -1], [-1, 3, -1], [-1, -1, -1]]), {}, rule_gokigen)]
     # aquarium: L- and U-shaped tanks (the water level is one per tank)
     I += [("aquarium", (2, 3, [[(0, 0), (1, 0), (1, 1)], [(0, 1), (0, 2), (1, 2)]], [-1, -1], [-1, -1, -1]), {}, rule_aquarium),
           ("aquarium", (2, 3, [[(0, 0), (1, 0), (1, 1), (1, 2), (0, 2)], [(0, 1)]], [-1, -1], [-1, -1, -1]), {}, rule_aquarium),
@@ -1272,6 +1278,9 @@ def instances(tier: str) -> List[Tuple[str, tuple, dict, Callable[..., Callable[
     I += [("putteria", (2, 3, [[(0, 0), (0, 1)], [(0, 2), (1, 2)], [(1, 0), (1, 1)]]), {}, rule_putteria),
           ("putteria", (3, 3, [[(0, 0), (0, 1), (0, 2)], [(1, 0), (1, 1), (1, 2)], [(2, 0), (2, 1), (2, 2)]]), {}, rule_putteria),
           ("putteria", (3, 2, [[(0, 0)], [(0, 1), (1, 1)], [(1, 0), (2, 0)], [(2, 1)]]), {}, rule_putteria)]
+    # two numbers of rooms of different sizes may still not touch, in either direction
+    I += [("putteria", (2, 2, [[(0, 0)], [(1, 0), (1, 1), (0, 1)]]), {}, rule_putteria),
+          ("putteria", (2, 3, [[(0, 0), (0, 1)], [(1, 0)], [(0, 2), (1, 1), (1, 2)]]), {}, rule_putteria)]
     # fillomino (integer answers)
     I += [("fillomino", (2, 2, [[0, 0], [0, 0]]), {}, rule_fillomino),
           ("fillomino", (1, 3, [[0, 2, 0]]), {}, rule_fillomino),
